@@ -780,16 +780,27 @@ func (g *gen) actions(n int) string {
 		case x < 45:
 			out = append(out, fmt.Sprintf("a%d", g.pickRoot()))
 			cur++
+			g.tr.Count("act:append")
 		case x < 65:
 			a := g.idx(cur)
 			b := g.idx(cur)
 			if g.r.Chance(1, 5) {
 				b = a
 			}
+			switch {
+			case a >= cur || b >= cur:
+				g.tr.Count("act:swap-out-of-range")
+			case a == b:
+				g.tr.Count("act:swap-equal")
+			case a > b:
+				g.tr.Count("act:swap-desc")
+			default:
+				g.tr.Count("act:swap-asc")
+			}
 			out = append(out, fmt.Sprintf("s%d.%d", a, b))
 		case x < 82:
 			t := 0
-			switch g.r.Intn(6) {
+			switch g.r.Intn(9) {
 			case 0:
 				t = cur // trim to zero
 			case 1:
@@ -802,11 +813,27 @@ func (g *gen) actions(n int) string {
 				}
 			}
 			out = append(out, fmt.Sprintf("t%d", t))
+			switch {
+			case t > cur:
+				g.tr.Count("act:trim-too-many")
+			case t == cur && cur > 0:
+				g.tr.Count("act:trim-to-zero")
+			case t == 0:
+				g.tr.Count("act:trim-0")
+			default:
+				g.tr.Count("act:trim")
+			}
 			if t <= cur {
 				cur -= t
 			}
 		default:
-			out = append(out, fmt.Sprintf("u%d.%d", g.idx(cur), g.pickRoot()))
+			i := g.idx(cur)
+			if i >= cur {
+				g.tr.Count("act:update-out-of-range")
+			} else {
+				g.tr.Count("act:update")
+			}
+			out = append(out, fmt.Sprintf("u%d.%d", i, g.pickRoot()))
 		}
 	}
 	return "[" + strings.Join(out, ",") + "]"
@@ -819,7 +846,8 @@ func (g *gen) nextRn(id int) uint64 {
 
 func (g *gen) faultArg() int {
 	if g.r.Chance(1, 8) {
-		return g.r.Intn(60)
+		// commits run ~10-40 statements, renewals ~15: mostly inside the transaction, sometimes past its end
+		return g.r.Intn(28)
 	}
 	return -1
 }
@@ -916,6 +944,12 @@ func (g *gen) afterRenew(id, nid int, v2 bool) {
 		g.v1 = append(g.v1, nid)
 	}
 	g.gen[nid] = g.gen[id] + 1
+	g.tr.Count(fmt.Sprintf("generation:%d", g.gen[nid]))
+	if g.memLen(nid, v2) == 0 {
+		g.tr.Count("renewed:empty")
+	} else {
+		g.tr.Count("renewed:nonempty")
+	}
 	// probe both ends of the link
 	if v2 {
 		g.do(fmt.Sprintf("lock2 c=%d", id))
